@@ -20,6 +20,8 @@ mod token_ring;
 use crate::frame::response::result::TableSpec;
 use rand::{Rng, seq::IteratorRandom};
 pub use token_ring::TokenRing;
+#[cfg(feature = "scylla-verif")]
+pub(crate) use token_ring::verif_hooks as verif_token_ring;
 
 use self::tablets::TabletsInfo;
 
